@@ -23,6 +23,8 @@ namespace vf {
         S_SEM_SIGNAL_RELOCK = 42,  // counting_semaphore::signal: one waiter notified, lock released, before re-taking it for the next
         S_LATCH_NOTIFY = 50,       // latch before the notify loop
         S_BARRIER_ARRIVE = 51,     // barrier arrive between ticket CASes
+        S_ONCE_BEFORE_CAS = 52,    // call_once: top of the retry loop, before the status CAS
+        S_ONCE_WON = 53,           // call_once: CAS won, before the event is reset and the callable runs
         S_THREAD_JOIN = 60,        // thread::join between callback registration and suspend
         S_EXIT_CALLBACKS = 61,     // thread_data::run_thread_exit_callbacks entry
         S_EXIT_CALLBACK_CALL = 62, // run_thread_exit_callbacks: lock released, before invoking one callback
